@@ -23,7 +23,7 @@ Inductive fscall :=
 | CMoveDir (s d : path).
 
 (** handles are indices into the store's handle table *)
-Definition hid := nat.
+Notation hid := nat (only parsing).
 
 Definition fval (c : fscall) : Type :=
   match c with
